@@ -1966,6 +1966,11 @@ def run(ctx):
     ctx.check_cases("roundtrip.builtin.with_calendar", calcases, wrap_skips(ctx, "builtin.with_calendar", oracle_builtin_calendar))
     ctx.check_cases("roundtrip.custom", custom_cases(ctx), wrap_skips(ctx, "custom", oracle_custom))
     ctx.check_cases("culture.calendar-switch", calendar_switch_cases(ctx), oracle_calendar_switch)
+    import text_entrypoints as te
+    mod, bcl, simple = te.cases_c07(ctx)
+    ctx.check_cases("pattern.modifier-chains", mod, te.check_modifiers)
+    ctx.check_cases("pattern.modifier-chains.simple", simple, te.check_simple_modifiers)
+    ctx.check_cases("format.spec-entry-points", bcl, te.check_bclformat)
     import texthist
     texthist.run_history(ctx, [("culture", ctx.scale(3, 60)), ("random", ctx.scale(2, 40)), ("width", ctx.scale(1, 20))])
     ctx.check_cases("format.month-names", format_total_cases(ctx), wrap_skips(ctx, "format.month-names", oracle_format_total))
@@ -1990,7 +1995,10 @@ def replay_op(op, failure):
             case = op                      # a case that is a plain string (culture name)
         fn = {"roundtrip.builtin": oracle_builtin, "roundtrip.builtin.with_calendar": oracle_builtin_calendar,
               "roundtrip.custom": oracle_custom, "reformat.fixed-width": oracle_reformat, "format.month-names": oracle_format_total,
-              "culture.calendar-switch": oracle_calendar_switch, "text.history": __import__("texthist").oracle_history}[name]
+              "culture.calendar-switch": oracle_calendar_switch, "text.history": __import__("texthist").oracle_history,
+              "pattern.modifier-chains": __import__("text_entrypoints").check_modifiers,
+              "pattern.modifier-chains.simple": __import__("text_entrypoints").check_simple_modifiers,
+              "format.spec-entry-points": __import__("text_entrypoints").check_bclformat}[name]
         r = fn(case)
         return None if (r and "skip" in r) else r
     t = op.split(" ")
